@@ -13,6 +13,7 @@ import (
 	"verif/internal/ref"
 	"verif/internal/run"
 	"verif/internal/spec"
+	"verif/internal/vproto"
 )
 
 func init() { checks["C02"] = c02 }
@@ -42,7 +43,7 @@ func statChanges(before, after run.Snapshot, paths []string) []mon.Problem {
 func c02(args []string) {
 	c := chk.New("C02", "exploration", args)
 	c.Build(false)
-	c.Rule("generated non-streaming graphs of command / Go-function processes and sources; for each graph subsets of its tasks (all subsets when <= 5 tasks, else random ones) get all their outputs pre-placed (bytes of an earlier complete run incl. audit files / arbitrary user bytes / empty files), and the history 'complete run, run again in place' (also: 4-16 independent chains that end in the sink and fan into one merging process, also chains / two-output tasks / diamonds with outputs in nested, parent-relative and absolute directories, re-run completely and after deleting the last process's outputs; 4-16 independent chains re-run 25-60 times in place as separate processes and 60-150 times inside one process, so that every process finishes at the same moment); oracle = no start event of a skipped task, (inode, size, mtime_ns, sha256) of every pre-existing output unchanged, downstream tasks executed exactly once on the pre-existing bytes (reference evaluation), re-run executes nothing. distinct_nontrivial = distinct (graph shape, subset, content kind) with >= 1 skipped and >= 1 executed task, plus re-run histories")
+	c.Rule("generated non-streaming graphs of command / Go-function processes and sources; for each graph subsets of its tasks (all subsets when <= 5 tasks, else random ones) get all their outputs pre-placed (bytes of an earlier complete run incl. audit files / arbitrary user bytes / empty files), and the history 'complete run, run again in place' (also: 4-16 independent chains that end in the sink and fan into one merging process, also a process whose out-port is declared through SetOut only; chains / two-output tasks / diamonds with outputs in nested, parent-relative and absolute directories, re-run completely and after deleting the last process's outputs; 4-16 independent chains re-run 25-60 times in place as separate processes and 60-150 times inside one process, so that every process finishes at the same moment); oracle = no start event of a skipped task, (inode, size, mtime_ns, sha256) of every pre-existing output unchanged, downstream tasks executed exactly once on the pre-existing bytes (reference evaluation), re-run executes nothing. distinct_nontrivial = distinct (graph shape, subset, content kind) with >= 1 skipped and >= 1 executed task, plus re-run histories")
 	c.Assume("subsets are subsets of tasks (all outputs of a task present), as the property quantifies; partial presence is C03's subject", ".audit.json files, log/ and atime are not judged")
 	rng := c.Rand("c02")
 	ngraphs := c.Pick(14, 120)
@@ -329,6 +330,7 @@ func c02(args []string) {
 	})
 	c02rerunMany(c)
 	c02pathShapes(c)
+	c02setOutOnly(c)
 	c.Finish()
 }
 
@@ -562,5 +564,72 @@ func c02pathShapes(c *chk.Ctx) {
 		c.Count("outputs_stat_compared", len(outs))
 		c.Count("path_shape_histories", 1)
 		c.Nontrivial(fmt.Sprintf("pathshape|%s|%s|%v|%v", j.kind, j.shape, j.gof, j.part))
+	})
+}
+
+// c02setOutOnly: a process whose out-port exists only through SetOut (the command names its result file itself, no
+// {o:...} placeholder): its existing outputs count like any other. History: complete run, run again (twice).
+func c02setOutOnly(c *chk.Ctx) {
+	run.Parallel(c.Pick(3, 9), func(i int) {
+		root := c.CaseDir()
+		defer c.Drop(root)
+		s := &spec.Spec{Name: "setoutonly", MaxTasks: 2, Sources: map[string]string{"u0.txt": "u0\n", "u1.txt": "u1\n"}}
+		pat := []string{"sd/{i:in|basename}.w.res", "{i:in|basename}.w.res", "sd/deep/er/{i:in|basename}.w.res"}[i%3]
+		s.Procs = append(s.Procs, &spec.Proc{Name: "src", Kind: spec.KFileSource, Files: []string{"u0.txt", "u1.txt"}},
+			&spec.Proc{Name: "W", Kind: spec.KCmd, Cmd: spec.VcmdPath + " run id=W i=in:{i:in} o=res:" + pat, Outs: []*spec.Out{{Port: "res", Pattern: pat}}},
+			&spec.Proc{Name: "D", Kind: spec.KCmd, Cmd: spec.BuildCmd("D", []spec.PortDecl{{Name: "in"}}, []spec.PortDecl{{Name: "out"}}, nil, nil, nil)})
+		s.Conns = append(s.Conns, &spec.Conn{From: "src.out", To: "W.in"}, &spec.Conn{From: "W.res", To: "D.in"})
+		desc := map[string]interface{}{"spec": s, "history": "complete run, run again twice", "port": "declared through SetOut only"}
+		res := execSpec(c, root, s, Cfg{Buf: 3, Procs: 2}, nil, false, 0)
+		if res.Hang != "" && !strings.HasPrefix(res.Hang, "deadlock") {
+			c.Inconclusive(res.Hang)
+			return
+		}
+		starts := func(tr []vproto.Event) int {
+			n := 0
+			for _, e := range tr {
+				if e.Ev == "start" {
+					n++
+				}
+			}
+			return n
+		}
+		if res.Exit != 0 || !res.Returned || starts(res.Trace) != 4 {
+			c.Violation("exit-nonzero", fmt.Sprintf("first run: exit %d, %d commands: %s", res.Exit, starts(res.Trace), tail(res.Output(), 400)), desc)
+			return
+		}
+		before := run.Snap(res.Wd)
+		var outs []string
+		for p, e := range before {
+			if e.Mode == "f" && (strings.HasSuffix(p, ".w.res") || strings.HasSuffix(p, ".out")) {
+				outs = append(outs, p)
+			}
+		}
+		var rp []mon.Problem
+		for x := 1; x <= 2 && len(rp) == 0; x++ {
+			rx := execSpec(c, root, s, Cfg{Buf: 3, Procs: 2}, nil, true, x)
+			if rx.Hang != "" && !strings.HasPrefix(rx.Hang, "deadlock") {
+				c.Inconclusive(rx.Hang)
+				return
+			}
+			if rx.Hang != "" || rx.Exit != 0 || !rx.Returned {
+				rp = append(rp, mon.Problem{Sig: "rerun-failed", Msg: fmt.Sprintf("re-run %d: exit %d %s: %s", x, rx.Exit, rx.Hang, tail(rx.Output(), 400))})
+			}
+			for _, e := range rx.Trace {
+				if e.Ev == "start" {
+					rp = append(rp, mon.Problem{Sig: "rerun-executed-command", Msg: fmt.Sprintf("re-run %d executed %s although its output exists", x, e.Key)})
+				}
+			}
+			rp = append(rp, statChanges(before, run.Snap(res.Wd), outs)...)
+		}
+		if len(rp) > 0 {
+			for _, sig := range sigSet(rp) {
+				desc["problems"] = mon.Summarize(rp, 10)
+				c.Violation(sig, "out-port declared through SetOut only: "+strings.Join(mon.Summarize(rp, 4), "\n  "), desc)
+			}
+			return
+		}
+		c.Count("outputs_stat_compared", len(outs))
+		c.Nontrivial(fmt.Sprintf("setoutonly|%d", i))
 	})
 }
